@@ -256,6 +256,28 @@ fn partition(e: &str) -> String {
                 hex(&pt.to_string_lossy()),
                 hex(gt.verif_pattern())
             );
+            // the same partition when the glob OWNS its expression (into_owned, FromStr)
+            let brief = |x: (std::path::PathBuf, Option<Glob<'_>>)| -> String {
+                let (p, q) = x;
+                match q {
+                    None => format!("{}|none", hex(&p.to_string_lossy())),
+                    Some(q) => format!(
+                        "{}|{}|{}|{}|{}",
+                        hex(&p.to_string_lossy()),
+                        hex(&q.to_string()),
+                        q.verif_tokens(),
+                        hex(q.verif_pattern()),
+                        q.captures().map(|c| format!("{}:{}+{}", c.index(), c.span().0, c.span().1)).collect::<Vec<_>>().join(",")
+                    ),
+                }
+            };
+            let borrowed = brief(g.clone().partition());
+            let routes: Vec<(&str, String)> = vec![
+                ("into-owned", q(|| brief(g.clone().into_owned().partition()), |x| x)),
+                ("from-str", q(|| Glob::from_str(e).map(|o| brief(o.partition())).unwrap_or_else(|_| "err".into()), |x| x)),
+            ];
+            let differing: Vec<String> = routes.iter().filter(|(_, d)| *d != borrowed).map(|(n, d)| format!("{}:{}", n, d)).collect();
+            let wrappers = format!("{} owned={}", wrappers, if differing.is_empty() { "same".to_string() } else { format!("DIFF<{}>", differing.join(";")) });
             let (pre, post) = g.partition();
             let prefix = hex(&pre.to_string_lossy());
             match post {
@@ -496,23 +518,29 @@ fn main() {
                 let e = arg(0);
                 let one = |name: &str, exh: String, root: String, pat: &str| format!("{}={}:{}:{}", name, exh, root, hex(pat));
                 let qe = |f: &dyn Fn() -> When| q(|| f(), |w| when(w).to_string());
+                // depth and text of the same value, appended (`:depth:text`) by `more`
+                fn more<'t, P: Program<'t>>(p: &P) -> String {
+                    let all = queries(p);
+                    let get = |k: &str| all.split(' ').find(|x| x.starts_with(k)).map(|x| x[k.len()..].to_string()).unwrap_or_default();
+                    format!(":{}:{}", get("depth="), get("text="))
+                }
                 match Glob::new(&e) {
                     Err(_) => "err".to_string(),
                     Ok(g) => {
                         let mut out = vec![];
                         let o = g.clone().into_owned();
-                        out.push(one("into-owned", qe(&|| o.is_exhaustive()), qe(&|| o.has_root()), o.verif_pattern()));
+                        out.push(one("into-owned", qe(&|| o.is_exhaustive()), qe(&|| o.has_root()), o.verif_pattern()) + &more(&o));
                         if let Ok(p) = Glob::from_str(&e) {
-                            out.push(one("from-str", qe(&|| p.is_exhaustive()), qe(&|| p.has_root()), p.verif_pattern()));
+                            out.push(one("from-str", qe(&|| p.is_exhaustive()), qe(&|| p.has_root()), p.verif_pattern()) + &more(&p));
                         }
                         if let Ok(a) = wax::any([e.as_str()]) {
-                            out.push(one("any-text", qe(&|| a.is_exhaustive()), qe(&|| a.has_root()), a.verif_pattern()));
+                            out.push(one("any-text", qe(&|| a.is_exhaustive()), qe(&|| a.has_root()), a.verif_pattern()) + &more(&a));
                         }
                         if let Ok(a) = wax::any([g.clone()]) {
-                            out.push(one("any-compiled", qe(&|| a.is_exhaustive()), qe(&|| a.has_root()), a.verif_pattern()));
+                            out.push(one("any-compiled", qe(&|| a.is_exhaustive()), qe(&|| a.has_root()), a.verif_pattern()) + &more(&a));
                         }
                         if let Ok(a) = wax::any([o]) {
-                            out.push(one("any-owned", qe(&|| a.is_exhaustive()), qe(&|| a.has_root()), a.verif_pattern()));
+                            out.push(one("any-owned", qe(&|| a.is_exhaustive()), qe(&|| a.has_root()), a.verif_pattern()) + &more(&a));
                         }
                         out.join(" ")
                     },
